@@ -195,6 +195,13 @@ def run(fns, n, seed, build="osmosis"):
             stats["distinct"].add((fn, json_key(args)))
             if len(stats["samples"]) < 4 and i % 7 == 0:
                 stats["samples"].append({"fn": fn, "args": args, "impl": a, "model": b})
+            if "bad" in a and str(a["bad"]).startswith("missing helper"):
+                # the helper no longer exists under that name in /repo (renamed / moved / removed): this one
+                # correspondence is not checked; reported once, with no input
+                if not any(x.get("fn") == fn and x.get("missing") for x in divs):
+                    divs.append({"kind": "pure", "fn": fn, "missing": True, "args": args, "impl": a, "model": b,
+                                 "what": "the helper %s is not found under its name in /repo: its correspondence with the model is not checked" % fn})
+                continue
             if "bad" in a or "bad" in b:
                 raise RuntimeError("pure call rejected: %r %r %r" % (req, a, b))
             ref = reference(fn, args)
